@@ -433,6 +433,11 @@ pub struct Ctx {
     pub bufs: Arena,
     pub hdrs: Arena,
     pub max_cap: usize,
+    /// fuzz builds (ASan): put the buffer and the header array into exact-size heap
+    /// allocations so that the sanitizer's redzones catch any over-read / over-write
+    pub heap_mode: bool,
+    heap_buf: Vec<u8>,
+    heap_hdrs: Vec<[usize; 4]>,
 }
 
 impl Ctx {
@@ -441,6 +446,9 @@ impl Ctx {
             bufs: Arena::new(max_buf + 4096),
             hdrs: Arena::new(max_cap * 32 + 4096),
             max_cap,
+            heap_mode: false,
+            heap_buf: Vec::new(),
+            heap_hdrs: Vec::new(),
         }
     }
 
@@ -458,14 +466,25 @@ impl Ctx {
     pub fn run(&mut self, spec: &Spec<'_>) -> Obs {
         self.ensure(spec.buf.len(), spec.cap);
         write_inflight(spec);
-        let buf_ptr = self.bufs.place_ptr(spec.buf.len(), spec.place);
+        let mut buf_ptr = self.bufs.place_ptr(spec.buf.len(), spec.place);
+        if self.heap_mode {
+            // exact-size heap allocation (shrink_to_fit => capacity == len for the allocator)
+            self.heap_buf = Vec::with_capacity(spec.buf.len());
+            self.heap_buf.extend_from_slice(spec.buf);
+            buf_ptr = self.heap_buf.as_mut_ptr();
+        }
         // SAFETY: the arena outlives this call; nothing else aliases the region.
         let buf: &'static [u8] = unsafe {
             std::ptr::copy_nonoverlapping(spec.buf.as_ptr(), buf_ptr, spec.buf.len());
             std::slice::from_raw_parts(buf_ptr, spec.buf.len())
         };
         let cap = spec.cap;
-        let arr_ptr = self.hdrs.region(cap * 32, 8, spec.hdr_at_end) as *mut Header<'static>;
+        let mut arr_ptr = self.hdrs.region(cap * 32, 8, spec.hdr_at_end) as *mut Header<'static>;
+        if self.heap_mode {
+            // 64 bytes of slack on each side for the canary, then the sanitizer's redzone
+            self.heap_hdrs = vec![[0usize; 4]; cap + 4];
+            arr_ptr = unsafe { self.heap_hdrs.as_mut_ptr().add(2) } as *mut Header<'static>;
+        }
         let uninit = spec.entry.uninit();
         // prefill
         unsafe {
